@@ -102,7 +102,7 @@ func checkC13() *checkDef {
 }
 
 func allChecks() []*checkDef {
-	return []*checkDef{checkC01(), checkC03(), checkC04(), checkC12(), checkC13(), checkC14(), checkC15(), checkC19()}
+	return []*checkDef{checkC01(), checkC03(), checkC04(), checkC06(), checkC07(), checkC12(), checkC13(), checkC14(), checkC15(), checkC19()}
 }
 
 func freshRuns(tier string) []run {
@@ -141,6 +141,51 @@ func checkC04() *checkDef {
 		Rule:        "all (policy, header class, gap pattern) tuples and all (method, status) pairs; distinct by tuple; non-trivial = distinct contact pattern",
 		Assumptions: seqAssumptions,
 		Runs:        freshRuns,
+	}
+}
+
+func checkC06() *checkDef {
+	return &checkDef{
+		ID: "C06", Title: "Revalidation uses stored validators; 304 and 200 update the entry correctly", Level: "model_checking",
+		LevelText: "Explicit-state exploration of histories over {GET with six kinds of client conditionals, expire (1 s past / 1 s before the model's expiry), origin content change, origin answers the next request 404/500} up to depth 4 (5 thorough) x five validator schemes (ETag, Last-Modified, both, none, weak ETag) x both backends on the real proxy, in lock step with a reference model: every upstream request must carry exactly the stored validators and no client conditional; 304 keeps the stored body and renews the lifetime by the configured default (probed 1 s before and after); 200 replaces it; other answers are relayed and force a new contact.",
+		LevelNote: "Trusted: in-process origin (honours conditionals like a real origin), virtual clock, the lock-step reference model.",
+		Technique: "explicit-state enumeration of request/expiry/origin-change histories on the implementation in lock step with a reference model",
+		DesignRef: "DESIGN.md section 4 C06",
+		Rule:        "all event sequences of the given depth ending in a GET, per validator scheme; distinct by sequence; non-trivial = distinct hit/revalidate/miss/error pattern",
+		Assumptions: seqAssumptions,
+		Runs: func(tier string) []run {
+			d := 4
+			if tier == "thorough" {
+				d = 5
+			}
+			return []run{
+				{Pkg: "./proxy", Scenario: "proxy/reval", Params: map[string]any{"backend": "memory", "depth": d}},
+				{Pkg: "./proxy", Scenario: "proxy/reval", Params: map[string]any{"backend": "file", "depth": d}},
+			}
+		},
+	}
+}
+
+func checkC07() *checkDef {
+	return &checkDef{
+		ID: "C07", Title: "Range answers are exact slices or explicit refusals", Level: "exploration",
+		Category: "exploration",
+		LevelText: "Bounded-exhaustive input enumeration: every Range header made of 7 prefixes x every tail over {0,1,5,9,-,',',SP,x} up to length 6 (7 thorough) plus 64-bit boundary numbers in every position, on representation sizes {0,1,2,10,36}, through the real parser and slicer under recover(), against an independent RFC 9110 reference with arbitrary-precision numbers (B3); then representative headers of every outcome class end to end through the real http.Server and proxy (both retry_on_invalid_range settings, six If-Range forms): a 206 must be exactly an allowed slice with consistent Content-Range/Content-Length, anything else a 416 with 'bytes */size' or the full 200, never a dropped connection.",
+		LevelNote: "Trusted: the reference RefRange (written from RFC 9110 14.1.2 and the repository's own whitespace-tolerant reading), the in-process origin. Random strings and strings longer than the bound are not covered.",
+		Technique: "bounded-exhaustive enumeration of the range-spec grammar against an independent reference function, plus end-to-end replay of every outcome class through the real server stack",
+		DesignRef: "DESIGN.md section 4 C07, appendix B3",
+		Rule:        "all strings prefix+tail with |tail| <= bound over the 8-symbol alphabet plus boundary numbers, on each size; distinct by (string,size); non-trivial = distinct (served/refused/panic, well-formed, satisfiable) class",
+		Assumptions: seqAssumptions,
+		Runs: func(tier string) []run {
+			ml := 6
+			if tier == "thorough" {
+				ml = 7
+			}
+			return []run{
+				{Pkg: "./proxy/headers", Scenario: "headers/range", Params: map[string]any{"max_len": ml, "sizes": []int{0, 1, 2, 10, 36}}},
+				{Pkg: "./proxy", Scenario: "proxy/range", Params: map[string]any{"backend": "memory"}},
+			}
+		},
 	}
 }
 
